@@ -266,6 +266,12 @@ func remoteFor(op string) map[string]string {
 		return map[string]string{"c5": "m5"}
 	case "CONN_UPDATE":
 		return map[string]string{"rm1": "m1v2"}
+	case "CONN_CREATE_BIG":
+		m := map[string]string{}
+		for i := 1; i <= bigN; i++ {
+			m[fmt.Sprintf("cb%d", i)] = fmt.Sprintf("b%d", i)
+		}
+		return m
 	}
 	return map[string]string{}
 }
@@ -615,6 +621,20 @@ func run(r *ev.Run, tier, replay string) {
 		perOp[c.Op] = c
 	}
 	for op, c := range perOp {
+		if op == "CONN_CREATE_BIG" {
+			// the steps of the big batch are sampled at the chunk edges by the specification itself (FaultPoint)
+			n := 0
+			for key := range byKey {
+				if strings.HasPrefix(key, op+"/") {
+					n++
+				}
+			}
+			if n < 10 {
+				r.Machinery("the plan TLC printed has only %d triples of %s", n, op)
+				return
+			}
+			continue
+		}
 		for k := 1; k <= c.NSteps+1; k++ {
 			if byKey[fmt.Sprintf("%s/%d/kill", op, k)] == nil || (k <= c.NSteps && byKey[fmt.Sprintf("%s/%d/error", op, k)] == nil) {
 				r.Machinery("the plan TLC printed lacks a triple of %s at step %d", op, k)
